@@ -88,3 +88,101 @@ Proof. vm_compute. reflexivity. Qed.
 Example c15_ex_raw_api_first_not_guarded :
   submitted (w_log (final src_consts [OpSubmit [false; false] good_env; OpNext 1 None good_env])) = [1; 1].
 Proof. vm_compute. reflexivity. Qed.
+
+(* ---- return codes, accepted completions, completion ---- *)
+
+(* the accepted submit-next-stage calls are exactly k = 2,3,..,current stage, each once; the return
+   code recorded for stage j is the rc of the (unique) accepted `submit-next-stage j+1 rc` *)
+Theorem c15_return_codes : forall ops, forallb cli_op ops = true ->
+  forall s, w_pipe (final src_consts ops) = Some s ->
+  map fst (advanced (w_log (final src_consts ops))) = zseq 2 (Z.to_nat (p_stage s - 1)) /\
+  forall j rc, 1 <= j <= nstages s ->
+    (recorded_rc s j = Some rc <-> In (EvAdvance (j + 1) rc) (w_log (final src_consts ops))).
+Proof. exact (rc_recorded src_consts src_consts_std). Qed.
+Print Assumptions c15_return_codes.
+
+(* EvAdvance k rc is logged by, and only by, an accepted `submit-next-stage k rc` call *)
+Theorem c15_advance_iff_accepted : forall ops o, forallb cli_op ops = true ->
+  let w := final src_consts ops in
+  advanced (w_log (snd (step src_consts w o))) =
+  advanced (w_log w) ++ match o with
+                        | OpNext k (Some rc) _ => if accepted (fst (step src_consts w o)) then [(k, rc)] else []
+                        | _ => []
+                        end.
+Proof. exact (advanced_step src_consts src_consts_std). Qed.
+Print Assumptions c15_advance_iff_accepted.
+
+(* is_complete <-> the current stage is n+1; and then submit-next-stage 2..n+1 were each accepted
+   exactly once (the last one is what set the flag) and every stage has its return code *)
+Theorem c15_complete_only_after_last : forall ops, forallb cli_op ops = true ->
+  forall s, w_pipe (final src_consts ops) = Some s ->
+  (p_complete s = true <-> p_stage s = nstages s + 1) /\
+  (p_complete s = true ->
+   map fst (advanced (w_log (final src_consts ops))) = zseq 2 (length (p_auto s)) /\
+   forall j, 1 <= j <= nstages s ->
+     exists rc, recorded_rc s j = Some rc /\ In (EvAdvance (j + 1) rc) (w_log (final src_consts ops))).
+Proof. exact (complete_only_after_last src_consts src_consts_std). Qed.
+Print Assumptions c15_complete_only_after_last.
+
+Theorem c15_complete_all_submitted : forall ops,
+  forallb cli_op ops = true -> forallb (fun o => env_ok (op_env o)) ops = true ->
+  forall s, w_pipe (final src_consts ops) = Some s -> p_complete s = true ->
+  submitted (w_log (final src_consts ops)) = zseq 1 (length (p_auto s)).
+Proof. exact (complete_all_submitted src_consts src_consts_std). Qed.
+Print Assumptions c15_complete_all_submitted.
+
+(* ---- system level: the hand-over in JobSubmitter._handle_completion composed with the above ----
+   sys_run = Some y  <=>  every SysComplete k consumed an outstanding submission of stage k and every
+   SysResubmit k hit a completed one (Pipeline.c05_enabled: at most one mark_complete per
+   (re)submission of a stage - property C05's business, here the explicit hypothesis).
+   Any number of stages, any interleaving of completions / resubmissions, any environment. *)
+
+(* stage j>1 is configured (auto-config run, config read), made current and submitted only after
+   stage j-1 was submitted and that submission was marked complete; completions only of existing
+   submissions (log_ordered / ev_justified: Pipeline.v) *)
+Theorem c15_after_completion : forall ops y,
+  sys_run src_consts init_sys ops = Some y -> log_ordered (w_log (y_world y)).
+Proof. exact (sys_handover_order src_consts src_consts_std). Qed.
+Print Assumptions c15_after_completion.
+
+(* the submitted stages are exactly 1,2,..,m - no gap even when auto-config / config / submission
+   fail - and nothing is configured, read or submitted twice *)
+Theorem c15_system_order_once : forall ops y,
+  sys_run src_consts init_sys ops = Some y ->
+  let L := w_log (y_world y) in
+  submitted L = zseq 1 (length (submitted L)) /\
+  NoDup (submitted L) /\ NoDup (configured L) /\ NoDup (config_read L) /\
+  forall k, In k (submitted L) -> exists s, w_pipe (y_world y) = Some s /\ 1 <= k <= p_stage s /\ k <= nstages s.
+Proof. exact (sys_order_once src_consts src_consts_std). Qed.
+Print Assumptions c15_system_order_once.
+
+(* the pipeline is marked complete only after every stage was submitted and its submission marked
+   complete; the recorded return code of stage j is the result value its completion handed over *)
+Theorem c15_system_complete : forall ops y,
+  sys_run src_consts init_sys ops = Some y ->
+  forall s, w_pipe (y_world y) = Some s -> p_complete s = true ->
+  let L := w_log (y_world y) in
+  p_stage s = nstages s + 1 /\
+  forall j, 1 <= j <= nstages s ->
+    In (EvSubmit j) L /\ In (EvMarkComplete j) L /\
+    exists rc, recorded_rc s j = Some rc /\ In (EvAdvance (j + 1) rc) L.
+Proof. exact (sys_complete src_consts src_consts_std). Qed.
+Print Assumptions c15_system_complete.
+
+(* non-vacuity: a 3-stage pipeline; stage 1 is resubmitted and completes a second time after the
+   pipeline moved on (rejected, nothing submitted), stage 2's completion hands over result 1 *)
+Example c15_ex_system :
+  let ops := [SysStart [true; false; true] good_env; SysComplete 1 0 good_env; SysResubmit 1;
+              SysComplete 1 0 good_env; SysComplete 2 1 good_env; SysComplete 3 0 good_env] in
+  option_map (fun y => (observe (y_world y), w_log (y_world y))) (sys_run src_consts init_sys ops) =
+  Some (Some (4, [Some 0; Some 1; Some 0], true),
+        [EvAutoConfig 1; EvReadConfig 1; EvSubmit 1; EvMarkComplete 1; EvAdvance 2 0; EvReadConfig 2; EvSubmit 2;
+         EvResubmit 1; EvMarkComplete 1; EvMarkComplete 2; EvAdvance 3 1; EvAutoConfig 3; EvReadConfig 3; EvSubmit 3;
+         EvMarkComplete 3; EvAdvance 4 0]).
+Proof. vm_compute. reflexivity. Qed.
+
+(* the hypothesis is not vacuous the other way either: a second completion without resubmission is
+   outside the discipline *)
+Example c15_ex_system_discipline :
+  sys_run src_consts init_sys [SysStart [true] good_env; SysComplete 1 0 good_env; SysComplete 1 0 good_env] = None.
+Proof. vm_compute. reflexivity. Qed.
